@@ -105,11 +105,11 @@ macro_rules! tuple_access {
 
 //@h {"id":"C19.K.tuple.coor4d","props":["C19","C09"],"tier":"quick","kind":"complete","timeout":300,"text":"Coor4D: nth/set_nth/x,y,z,t/xy,xyz,xyzt/set_xy,set_xyz,set_xyzt/fill agree with element-wise definitions for all f64 bits and any index; out-of-range reads give NaN; no panic"}
 tuple_access!(c19_tuple_coor4d, |r: [f64; 4]| Coor4D(r), 4usize, |v: f64| v);
-//@h {"id":"C19.K.tuple.coor3d","props":["C19","C09"],"tier":"quick","kind":"complete","timeout":300,"text":"Coor3D: same contract, dim 3"}
+//@h {"id":"C19.K.tuple.coor3d","props":["C19"],"tier":"quick","kind":"complete","timeout":300,"text":"Coor3D: same contract, dim 3"}
 tuple_access!(c19_tuple_coor3d, |r: [f64; 4]| Coor3D([r[0], r[1], r[2]]), 3usize, |v: f64| v);
-//@h {"id":"C19.K.tuple.coor2d","props":["C19","C09"],"tier":"quick","kind":"complete","timeout":300,"text":"Coor2D: same contract, dim 2"}
+//@h {"id":"C19.K.tuple.coor2d","props":["C19"],"tier":"quick","kind":"complete","timeout":300,"text":"Coor2D: same contract, dim 2"}
 tuple_access!(c19_tuple_coor2d, |r: [f64; 4]| Coor2D([r[0], r[1]]), 2usize, |v: f64| v);
-//@h {"id":"C19.K.tuple.coor32","props":["C19","C09"],"tier":"quick","kind":"complete","timeout":300,"text":"Coor32: same contract, dim 2, stored value is `v as f32 as f64`"}
+//@h {"id":"C19.K.tuple.coor32","props":["C19"],"tier":"quick","kind":"complete","timeout":300,"text":"Coor32: same contract, dim 2, stored value is `v as f32 as f64`"}
 tuple_access!(c19_tuple_coor32, |r: [f64; 4]| Coor32([r[0] as f32, r[1] as f32]), 2usize, |v: f64| v as f32 as f64);
 //@h {"id":"C19.K.tuple.pair","props":["C19","C09"],"tier":"quick","kind":"complete","timeout":300,"text":"(f64,f64): same contract, dim 2"}
 tuple_access!(c19_tuple_pair, |r: [f64; 4]| (r[0], r[1]), 2usize, |v: f64| v);
@@ -295,14 +295,14 @@ macro_rules! set_harness {
 
 //@h {"id":"C19.K.set.coor4d","props":["C19","C02","C09","C10"],"tier":"quick","kind":"complete","timeout":900,"text":"[Coor4D;3], Vec<Coor4D>, &mut [Coor4D] through &mut dyn CoordinateSet: write-then-read bit-exact in 4 dims; other tuples untouched; xy/xyz/set_xy/set_xyz agree with get_coord/set_coord; set_xy keeps z,t; stomp => all NaN. Symbolic indices i != j over a 3-tuple container (the impls index one element; no loop over the container except stomp)"}
 set_harness!(c19_set_coor4d, Coor4D, f64, 4, false, |r: [f64; 4]| Coor4D(r));
-//@h {"id":"C19.K.set.coor3d","props":["C19","C02","C09","C10"],"tier":"quick","kind":"complete","timeout":900,"text":"Coor3D containers: 3 stored dims, epoch reads NaN"}
+//@h {"id":"C19.K.set.coor3d","props":["C19","C02"],"tier":"quick","kind":"complete","timeout":900,"text":"Coor3D containers: 3 stored dims, epoch reads NaN"}
 set_harness!(c19_set_coor3d, Coor3D, f64, 3, false, |r: [f64; 4]| Coor3D([r[0], r[1], r[2]]));
-//@h {"id":"C19.K.set.coor2d","props":["C19","C02","C09","C10"],"tier":"quick","kind":"complete","timeout":900,"text":"Coor2D containers: 2 stored dims, height reads 0, epoch reads NaN"}
+//@h {"id":"C19.K.set.coor2d","props":["C19","C02"],"tier":"quick","kind":"complete","timeout":900,"text":"Coor2D containers: 2 stored dims, height reads 0, epoch reads NaN"}
 set_harness!(c19_set_coor2d, Coor2D, f64, 2, false, |r: [f64; 4]| Coor2D([r[0], r[1]]));
-//@h {"id":"C19.K.set.coor32","props":["C19","C02","C09","C10"],"tier":"quick","kind":"complete","timeout":900,"text":"Coor32 containers: 2 stored dims as f32, height reads 0, epoch reads NaN"}
+//@h {"id":"C19.K.set.coor32","props":["C19","C02"],"tier":"quick","kind":"complete","timeout":900,"text":"Coor32 containers: 2 stored dims as f32, height reads 0, epoch reads NaN"}
 set_harness!(c19_set_coor32, Coor32, f32, 2, true, |r: [f64; 4]| Coor32([r[0] as f32, r[1] as f32]));
 
-//@h {"id":"C19.K.set.adaptors","props":["C19","C02","C09"],"tier":"quick","kind":"complete","timeout":900,"text":"(T,f64) supplies the fixed epoch, (T,f64,f64) the fixed height and epoch; stored dimensions round-trip; frame"}
+//@h {"id":"C19.K.set.adaptors","props":["C19","C02"],"tier":"quick","kind":"complete","timeout":900,"text":"(T,f64) supplies the fixed epoch, (T,f64,f64) the fixed height and epoch; stored dimensions round-trip; frame"}
 #[kani::proof]
 #[kani::unwind(5)]
 fn c19_set_adaptors() {
